@@ -116,6 +116,7 @@ def main(argv):
             seeds = edits.make_seeds(args.seed, 14 if quick else 40, max_level=6 if quick else 7)
             runs.append(("d1", seeds, {"MAXDEPTH": "1", "MAXP": "2", "MAXS": "2", "OPS": "BCTR"}))
             runs.append(("wide", [edits.wide_seed()], {"MAXDEPTH": "1", "MAXP": "1", "MAXS": "3", "OPS": "BCT"}))
+            runs.append(("handmade", edits.handmade_seeds(), {"MAXDEPTH": "1", "MAXP": "2", "MAXS": "2", "OPS": "BCT"}))
             small = [s for s in seeds if len(s["H"]) <= 7][: (3 if quick else 8)]
             runs.append(("d2", small, {"MAXDEPTH": "2", "MAXP": "1", "MAXS": "2" if not quick else "1", "OPS": "BCTR"}))
         for tag, sds, env in runs:
